@@ -8,10 +8,10 @@ PROP = dict(
                          "zz_verif_c10_test.go": "harness/main/c10_test.go",
                          "zz_verif_c13_test.go": "harness/main/c13_test.go"},
                   timeout=600, timeout_thorough=2400)],
-    technique="Coq proof, once for all reader programs over a read oracle (logical-relation / monotonicity argument), instantiated by the repository's readers + truncation sweep on the real readers with recorded read traces checked by the model",
+    technique="Coq proof, once for all reader programs over a read oracle (logical-relation / monotonicity argument), instantiated by the repository's readers and proved again on the byte-level reader models of C04/C05/C06 (whose correspondence checks tie them to the Go readers) + truncation sweep on the real readers with recorded read traces checked by the model",
     level_text="Theorem (Coq, no axioms) for EVERY reader program (return / fail / positioned read whose failure aborts), every file and every cut: the truncated copy yields the complete file's result or a read error, never another answer; monotone in the read oracle in general; a failed read always ends in a read error. The compact-index program is proved equal to the byte-level lookup model. Tie: one generated epoch, all file kinds (4 compact-index kinds, sig-exists, block-time, gsfa pubkey index / linked log / manifest, CAR via ReaderAt and via bufio); cut points exhaustive for small files, boundaries +-2 and a random sample for large ones, x every stored key and absent keys (~10^5 lookups quick); every ReadAt of the real readers is recorded and the Coq checker confirms no reader answers after a failed read.",
     level_note="Trusted: Coq kernel; the claim that each Go reader is a reader program is what the recorded read traces check on sampled runs (a reader swallowing a read error would answer after a failed read); pure parsing steps between reads are arbitrary functions in the theorem.",
     design_ref="5 (C13)",
-    trusted=["C13_Trunc.v reader-program abstraction (tied by recorded ReadAt traces of the real readers)"] + COMMON_TRUSTED,
+    trusted=["C13_Trunc.v reader-program abstraction (tied by recorded ReadAt traces of the real readers)", "reader models C04_Model.lookup_at, C05_Model.open_/has, C06_LinkedLog.read_with_size, C06_Store.bwalk (tied to the Go readers by the C04/C05/C06 correspondence checks, not by this check)"] + COMMON_TRUSTED,
     assumptions=["io.ReaderAt implementations report short reads as errors"],
 )
